@@ -292,3 +292,23 @@ Proof.
 Qed.
 
 (* assign_from_string: K+=v is a one-element list, K=v a single; "+=" is tried first *)
+Lemma split_once_none_no_prefix pat : forall s acc, split_once pat s acc = None -> is_prefix pat s = false.
+Proof.
+  intros s acc. destruct s as [|c t]; cbn [split_once]; destruct (is_prefix pat _); intros H; try discriminate; reflexivity.
+Qed.
+
+(* "+=" is tried before "=": K+=v never parses as the single assignment of "K+" *)
+Theorem assign_plus_first e a var value :
+  split_once (S_ "+=") a [] = Some (var, value) ->
+  assign_from_string e a = Ok (merge e [(var, EList [value])]).
+Proof. intros H. unfold assign_from_string. rewrite H. reflexivity. Qed.
+
+Theorem assign_single e a var value :
+  split_once (S_ "+=") a [] = None -> split_once (S_ "=") a [] = Some (var, value) ->
+  assign_from_string e a = Ok (merge e [(var, Single value)]).
+Proof. intros H1 H2. unfold assign_from_string. rewrite H1, H2. reflexivity. Qed.
+
+Theorem assign_unparsable e a :
+  split_once (S_ "+=") a [] = None -> split_once (S_ "=") a [] = None ->
+  assign_from_string e a = Err EParse.
+Proof. intros H1 H2. unfold assign_from_string. rewrite H1, H2. reflexivity. Qed.
